@@ -66,6 +66,7 @@ def _worker(args):
         # (i) CPython cross-check of engine + contract on every run, (ii) search for a real failing input when an
         # obligation failed or stayed undecided. Bounded, never counted as proved.
         if key in db.domains:
+          try:
             import itertools
             n = nviol = 0
             first = []
@@ -81,6 +82,8 @@ def _worker(args):
                         first.append(dict(call=desc, violations=[list(v) for v in viol]))
             out['domain'] = dict(evaluated=n, violating=nviol, first=first,
                                  wall_s=round(__import__('time').time() - t1, 2))
+          except Exception as e:
+            out['domain_error'] = f'{type(e).__name__}: {e}\n{traceback.format_exc()[-1500:]}'
     except Exception as e:
         out['error'] = f'checker crash: {type(e).__name__}: {e}\n{traceback.format_exc()[-3000:]}'
         out['crash'] = True
